@@ -39,6 +39,8 @@ def run(ctx, tier):
     ctx.rule("M3", "test and match agree on input plumbing")
     ctx.rule("M4", "compile classifies a component into a shortcut only under the guards that make the shortcut exact")
     ctx.rule("M5", "a result<T> that starts default-constructed is read only after it was assigned")
+    ctx.rule("M7", "dictionary inputs: test() and match() take the components as process() returns them (process already removed the "
+                   "single leading '?' / '#' / trailing ':')")
     ctx.rule("M6", "the literal and the regular-expression form of 'protocol matches a special scheme' test the same schemes")
     cfgs = C.configs_for(tier, thorough=["release", "devchecks", "amalgamated"])
     fxs = C.load_configs(ctx, cfgs)
@@ -97,14 +99,14 @@ def check_default_results(ctx, fx):
     ctx.floor("M5", n, 4, "reads of default-constructed result<T> locals")
 
 
-def check_special_scheme_twins(ctx, fx):
+def check_special_scheme_twins(ctx, fx, rule="M6"):
     """M6.  protocol_component_matches_special_scheme decides whether pathname patterns are compiled with hierarchical
     or opaque options.  Its EXACT_MATCH arm (string comparisons) and its REGEXP arm (regex_match calls) must enumerate
     the same scheme literals, otherwise the same protocol gives different pathname semantics depending on whether it
     was compiled to a shortcut."""
     fs = [f for f in fx.functions if f["qname"] == "ada::url_pattern_helpers::protocol_component_matches_special_scheme" and "blocks" in f]
     if not fs:
-        ctx.broken("M6: protocol_component_matches_special_scheme not found")
+        ctx.broken(rule + ": protocol_component_matches_special_scheme not found")
     for f in fs:
         blk = {b["id"]: b for b in f["blocks"]}
         entries = {}
@@ -136,21 +138,56 @@ def check_special_scheme_twins(ctx, fx):
             lits[name] = sorted(set(found))
         a, r = lits.get("EXACT_MATCH"), lits.get("REGEXP")
         if a is None or r is None:
-            ctx.broken("M6: EXACT_MATCH / REGEXP arms not found in protocol_component_matches_special_scheme")
-        ctx.check("M6", "EXACT_MATCH and REGEXP arms enumerate the same schemes", a == r and len(a) >= 5, ", ".join(a),
+            ctx.broken(rule + ": EXACT_MATCH / REGEXP arms not found in protocol_component_matches_special_scheme")
+        ctx.check(rule, "EXACT_MATCH and REGEXP arms enumerate the same schemes", a == r and len(a) >= 5, ", ".join(a),
                   "the literal arm tests {%s} but the regular-expression arm tests {%s}: a protocol pattern for %s is special in one "
                   "compiled form and not in the other" % (", ".join(a), ", ".join(r), ", ".join(sorted(set(a) ^ set(r)))),
                   where=f["loc"].replace("/repo/", ""))
-        # the special schemes of the URL Standard other than file (file URLs get their own treatment in the constructor parser)
-        want = ["ftp", "http", "https", "ws", "wss"]
-        ctx.check("M6", "the enumerated schemes are the special schemes", a == want, ", ".join(a),
-                  "the arms enumerate {%s}; the special schemes (without file) are {%s}" % (", ".join(a), ", ".join(want)),
+        # URLPattern Standard, "protocol component matches a special scheme": the list is populated with *all* special schemes
+        # of the URL Standard: ftp, file, http, https, ws, wss
+        want = ["file", "ftp", "http", "https", "ws", "wss"]
+        ctx.check(rule, "the enumerated schemes are the special schemes", a == want, ", ".join(a),
+                  "the arms enumerate {%s}; the special schemes are {%s}: a pattern whose protocol is the missing scheme gets opaque-path "
+                  "pathname semantics (no '/' segments, no dot-segment removal) instead of hierarchical ones" % (", ".join(a), ", ".join(want)),
                   where=f["loc"].replace("/repo/", ""))
-    ctx.floor("M6", len(fs), 1, "instantiations of protocol_component_matches_special_scheme")
+    ctx.floor(rule, len(fs), 1, "instantiations of protocol_component_matches_special_scheme")
+
+
+def check_dictionary_plumbing(ctx, fx):
+    """M7.  URLPattern Standard, match(): for a URLPatternInit input, "set search to applyResult["search"]" — process a
+    URLPatternInit has already removed one leading '?' (process a search for init), one leading '#', one trailing ':'.  A
+    second removal in test()/match() drops a character that belongs to the component ("??x" -> "x" instead of "?x")."""
+    n = 0
+    for nm in ("test", "match"):
+        f = fx.fn1("%s::%s" % (PAT, nm))
+        # locals that are views of apply_result's fields
+        derived = set()
+        for b in f["blocks"]:
+            for st in b["stmts"]:
+                if st["k"] == "decl":
+                    for v in st["vars"]:
+                        if v.get("init") is not None and "apply_result" in X.show(v["init"]):
+                            derived.add(v["id"])
+        for nd, st, b in C.all_nodes(f):
+            if nd.get("k") == "call" and nd.get("name") in ("starts_with", "ends_with") and nd.get("recv") is not None:
+                if any(m.startswith("ADA_ASSERT") for m in (st.get("macros") or [])):
+                    continue
+                r = nd["recv"]
+                from_apply = "apply_result" in X.show(r) or any(x.get("k") == "ref" and x.get("id") in derived for x in X.walk(r))
+                if not from_apply:
+                    continue
+                n += 1
+                ctx.fail("M7", "%s: `%s`" % (nm, X.show(nd)[:60]),
+                         "%s() strips a delimiter from a component that process() returned: process a URLPatternInit has already "
+                         "removed the single delimiter, so this removes a character of the component itself (search \"??x\" is "
+                         "reported and matched as \"x\" instead of \"?x\")" % nm, where=(st.get("loc") or "").replace("/repo/", ""))
+        ctx.ok("M7", "%s: dictionary branch examined" % nm, "examined", where=f["loc"].replace("/repo/", ""))
+    return n
 
 
 def check(ctx, fx):
     check_default_results(ctx, fx)
+    check_dictionary_plumbing(ctx, fx)
     check_special_scheme_twins(ctx, fx)
     # ---- M1 -----------------------------------------------------------------------
     targets = []
